@@ -84,4 +84,16 @@ PROPS = {
             {"name": "concurrent", "pkg": "c04", "run": "^TestC04Concurrent$", "race": True, "shards": {"quick": 6, "thorough": 16}, "timeout": {"quick": 400, "thorough": 3000}},
         ],
     },
+    "C07": {
+        "level": "exploration",
+        "level_text": "Held on K rounds of 1-8 concurrent publishers x 5-200 events against Sequential, Async+Sequential and context-aware Sequential handlers whose bodies yield inside the critical section (GOMAXPROCS 1/2/4/16, -race): enter/exit stamps of every Sequential registration alternated, an in-body counter never exceeded one, an unsynchronised canary lost no update (the race detector being a further overlap witness), every event was delivered exactly once, and for Async+Sequential the events of each publishing goroutine were processed in the order they were published.",
+        "level_note": "Order is asserted only for events published one after another by the same goroutine with a live context, as the statement says. Schedules are sampled (noise + GOMAXPROCS + race-detector scheduler randomisation), not enumerated.",
+        "technique": "runtime monitoring: online overlap assertion + offline order / exactly-once checker over recorded histories, under the race detector",
+        "design_ref": "DESIGN.md section 5 C07",
+        "rule": "PRNG (publishers, events per publisher, handler mix, noise level, GOMAXPROCS); distinct = (publishers, events/10, max dispatched-but-not-entered invocations capped at 8, GOMAXPROCS); non-trivial = at least two invocations were pending simultaneously",
+        "assumptions": ["logical-clock stamps are taken inside the handler bodies"],
+        "parts": [
+            {"name": "sequential", "pkg": "c07", "run": "^TestC07$", "race": True, "shards": {"quick": 8, "thorough": 16}, "timeout": {"quick": 400, "thorough": 3000}},
+        ],
+    },
 }
